@@ -776,7 +776,7 @@ impl Scenario for C03Nesting {
                 // every level references the previous one k times: the expanded type has k^n nodes
                 shape_name = "a2ml-named-fanout";
                 let k = *cx.tape.pick(&[2usize, 2, 3, 8]);
-                let kw = cx.tape.pick_str(&["struct", "taggedstruct"]);
+                let kw = cx.tape.pick_str(&["struct", "taggedstruct", "taggedunion"]);
                 // k^levels up to about 2^22 (struct) / 2^20 (taggedstruct, larger nodes) nodes on a tree without a limit:
                 // enough to exceed the memory allowance several times, not enough to exhaust the machine
                 let max_levels = match (k, kw) {
@@ -795,7 +795,7 @@ impl Scenario for C03Nesting {
                         if kw == "struct" {
                             a2ml.push_str(&format!("struct s{}; ", i - 1));
                         } else {
-                            a2ml.push_str(&format!("\"T{j}\" taggedstruct s{}; ", i - 1));
+                            a2ml.push_str(&format!("\"T{j}\" {kw} s{}; ", i - 1));
                         }
                     }
                     a2ml.push_str("};\n");
@@ -810,8 +810,10 @@ impl Scenario for C03Nesting {
                 // arrays of arrays and huge dimensions
                 shape_name = "a2ml-array-dimensions";
                 a2ml.push_str("block \"IF_DATA\" struct { int");
-                for _ in 0..depth.min(2_000) {
-                    a2ml.push_str(&format!("[{}]", cx.tape.pick_str(&["1", "2", "1000", "4294967295", "0"])));
+                // plain small dimensions (the nesting is what counts) or a mix with extreme values
+                let plain = cx.tape.chance(2, 3);
+                for _ in 0..depth {
+                    a2ml.push_str(&format!("[{}]", if plain { cx.tape.pick_str(&["1", "2", "3"]) } else { cx.tape.pick_str(&["1", "2", "1000", "4294967295", "0", "-1", "2147483647"]) }));
                 }
                 a2ml.push_str("; };");
                 ifdata.push_str("/begin IF_DATA 1 2 3 /end IF_DATA");
